@@ -392,7 +392,7 @@ pub fn run_c11(cfg: &Cfg, rep: &mut Report) {
     }
     for (chans, values) in setups {
         let alpha = pn_alphabet(&chans, &values, false, None);
-        let (st, _) = explore(cfg, PnMon::new(), &alpha, 3_000_000, rep, false);
+        let (st, _) = explore(cfg, PnMon::new(), &alpha, if chans.len() > 1 { 80_000 } else { 30_000 }, rep, false);
         rep.states += st.states;
         rep.transitions += st.transitions;
         rep.evaluations += st.transitions;
@@ -648,7 +648,7 @@ pub fn run_c10(cfg: &Cfg, rep: &mut Report) {
             mon: PnMon::new(),
             sample: std::sync::Arc::new(sample),
         };
-        let (st, _) = explore(cfg, init, &alpha, 1_000_000, rep, false);
+        let (st, _) = explore(cfg, init, &alpha, 30_000, rep, false);
         rep.states += st.states;
         rep.transitions += st.transitions;
         rep.distinct_nontrivial += st.states;
@@ -780,9 +780,9 @@ pub fn run_c10(cfg: &Cfg, rep: &mut Report) {
         for k in 0..n {
             let m = PnM { ch: c, number: 1234, value: (k % 128) as u16, registered: false, is14: false, dt: 0 };
             let evs = crate_encoding(&m, false, rep);
-            let before = rep.violations_total;
+            let before = rep.own_violations("C10");
             feed_unit(&mut mon, &mut hist, &m, &evs, "long-run-of-7bit-encodings", rep);
-            if rep.violations_total > before {
+            if rep.own_violations("C10") > before {
                 break;
             }
         }
